@@ -45,14 +45,16 @@ func RunProcessor(c *sim.Ctx) {
 		return int(c.Knob(name, func() int64 { return int64(c.Int(name, lo, hi)) }))
 	}
 	n := knob("events", 2, 12)
-	c.ProbeDecl("enqueue_blocked_on_semaphore", "enqueue_err_busy", "stop_with_batches_in_flight", "far_future_event_dropped", "ordered_batch_with_reordering_checker", "event_spilled_by_buffer", "all_batches_done_and_balanced", "duplicate_event_in_flight")
+	c.ProbeDecl("enqueue_blocked_on_semaphore", "enqueue_err_busy", "stop_with_batches_in_flight", "far_future_event_dropped", "ordered_batch_with_reordering_checker", "event_spilled_by_buffer", "all_batches_done_and_balanced", "duplicate_event_in_flight", "run_with_lamport_claim_2^31_ahead")
 	type evd struct {
-		parents []int
-		lamport int
-		base    *dag.BaseEvent
+		parents  []int
+		lamport  int
+		chain    int // the Lamport time children continue from
+		base     *dag.BaseEvent
 		farAhead bool
 	}
 	evs := make([]*evd, n)
+	hugeClaims := 0
 	for i := 0; i < n; i++ {
 		e := &evd{}
 		np := knob(fmt.Sprintf("nparents%d", i), 0, 2)
@@ -66,13 +68,23 @@ func RunProcessor(c *sim.Ctx) {
 		}
 		e.lamport = 1
 		for _, p := range e.parents {
-			if evs[p].lamport+1 > e.lamport {
-				e.lamport = evs[p].lamport + 1
+			if evs[p].chain+1 > e.lamport {
+				e.lamport = evs[p].chain + 1
 			}
 		}
-		if knob(fmt.Sprintf("far%d", i), 0, 9) == 0 {
+		switch knob(fmt.Sprintf("far%d", i), 0, 11) {
+		case 0:
 			e.lamport += knob(fmt.Sprintf("far_by%d", i), 1, 30) // claims a Lamport time far ahead (nothing checks it here)
 			e.farAhead = true
+		case 1:
+			// an extreme claim: around 2^31 above, or the largest value there is (children continue from the value before the jump)
+			e.chain = e.lamport
+			e.lamport = []int{1<<31 - 1, 1 << 31, 1<<31 + e.lamport, 3000000000, 1<<32 - 1}[knob(fmt.Sprintf("huge%d", i), 0, 4)]
+			e.farAhead = true
+			hugeClaims++
+		}
+		if e.chain == 0 {
+			e.chain = e.lamport
 		}
 		me := &dag.MutableBaseEvent{}
 		me.SetEpoch(1)
@@ -156,14 +168,18 @@ func RunProcessor(c *sim.Ctx) {
 	})
 
 	rec := &recorder{}
-	probes := map[string]int{}
+	probes := newProbes()
+	if hugeClaims > 0 {
+		probes.inc("run_with_lamport_claim_2^31_ahead")
+	}
 	var simEnd time.Duration
 	trouble := runBubble(c.T, func() {
 		start := time.Now()
 		now := func() time.Duration { return time.Since(start) }
+		var ml modelLock
 		capacity := dag.Metric{Num: idx.Event(semNum), Size: semSize}
 		warned := 0
-		sem := datasemaphore.New(capacity, func(dag.Metric, dag.Metric, dag.Metric) { warned++ })
+		sem := datasemaphore.New(capacity, func(dag.Metric, dag.Metric, dag.Metric) { ml.do(func() { warned++ }) })
 		connected := map[int]bool{}
 		highest := func() idx.Lamport {
 			h := 0
@@ -204,6 +220,8 @@ func RunProcessor(c *sim.Ctx) {
 					if pc == nil {
 						return nil
 					}
+					ml.mu.Lock()
+					defer ml.mu.Unlock()
 					for _, p := range evs[pc.ev].parents {
 						if !connected[p] {
 							rec.violation("proc-order", "proc-order/parent-missing", "Process(e%d) while parent e%d is not connected", pc.ev, p)
@@ -224,6 +242,8 @@ func RunProcessor(c *sim.Ctx) {
 					if pc == nil {
 						return
 					}
+					ml.mu.Lock()
+					defer ml.mu.Unlock()
 					b := batches[pc.batch]
 					if len(occ[pc.ev]) == 1 {
 						touch(pc)
@@ -241,16 +261,18 @@ func RunProcessor(c *sim.Ctx) {
 					}
 					if err == eventcheck.ErrSpilledEvent {
 						if idx.Lamport(evs[pc.ev].lamport) > lastHL+1+idx.Lamport(bufNum) {
-							probes["far_future_event_dropped"]++
+							probes.inc("far_future_event_dropped")
 						} else {
-							probes["event_spilled_by_buffer"]++
+							probes.inc("event_spilled_by_buffer")
 						}
 					}
 					if err == eventcheck.ErrDuplicateEvent {
-						probes["duplicate_event_in_flight"]++
+						probes.inc("duplicate_event_in_flight")
 					}
 				},
 				Get: func(h hash.Event) dag.Event {
+					ml.mu.Lock()
+					defer ml.mu.Unlock()
 					if i, ok := byID[h]; ok && connected[i] {
 						return evs[i].base
 					}
@@ -258,6 +280,8 @@ func RunProcessor(c *sim.Ctx) {
 				},
 				Exists: func(h hash.Event) bool {
 					// called by the ordering buffer with the pushed event's own id: the (re-)push is observable here
+					ml.mu.Lock()
+					defer ml.mu.Unlock()
 					i, ok := byID[h]
 					if ok && idx.Lamport(evs[i].lamport) > lastHL+1+idx.Lamport(bufNum) {
 						rec.violation("proc-far-future", "proc-far-future", "event e%d with Lamport %d reached the ordering buffer although the highest known Lamport time was %d and the buffer limit is %d events", i, evs[i].lamport, lastHL, bufNum)
@@ -290,8 +314,11 @@ func RunProcessor(c *sim.Ctx) {
 				},
 			},
 			HighestLamport: func() idx.Lamport {
-				lastHL = highest()
-				v := lastHL
+				var v idx.Lamport
+				ml.do(func() {
+					lastHL = highest()
+					v = lastHL
+				})
 				if slowHL > 0 {
 					time.Sleep(slowHL)
 				}
@@ -305,6 +332,8 @@ func RunProcessor(c *sim.Ctx) {
 				return
 			}
 			got := sem.Processing()
+			ml.mu.Lock()
+			defer ml.mu.Unlock()
 			if !stopping && (got.Num > capacity.Num || got.Size > capacity.Size) {
 				rec.violation("proc-semaphore", "proc-semaphore/capacity", "%s t=%v: semaphore holds %v, capacity %v", when, now(), got, capacity)
 			}
@@ -326,15 +355,17 @@ func RunProcessor(c *sim.Ctx) {
 			plan = append(plan, stim{at: stopAt + 7*time.Nanosecond*100, op: sim.Op{K: "stop"}})
 		}
 		doStop := func() {
-			stopping = true
-			for _, b := range batches {
-				if b.doneAt < 0 && (b.returned && b.enqErr == nil || !b.returned) {
-					probes["stop_with_batches_in_flight"]++
-					break
+			ml.do(func() {
+				stopping = true
+				for _, b := range batches {
+					if b.doneAt < 0 && (b.returned && b.enqErr == nil || !b.returned) {
+						probes.inc("stop_with_batches_in_flight")
+						break
+					}
 				}
-			}
+			})
 			proc.Stop()
-			stopped = true
+			ml.do(func() { stopped = true })
 		}
 		fire := func(s stim, t time.Duration) {
 			if rec.failed() {
@@ -342,29 +373,42 @@ func RunProcessor(c *sim.Ctx) {
 			}
 			switch s.op.K {
 			case "stop":
-				if !stopped {
+				was := false
+				ml.do(func() { was = stopped })
+				if !was {
 					doStop()
 				}
 			case "enqueue":
 				b := batches[int(s.op.A[0])]
-				if stopped {
-					b.returned, b.enqErr = true, errors.New("not attempted: the processor was stopped before")
+				var list dag.Events
+				skip := false
+				ml.do(func() {
+					if stopped {
+						b.returned, b.enqErr = true, errors.New("not attempted: the processor was stopped before")
+						skip = true
+						return
+					}
+					for j, e := range b.events {
+						pc := &pcopy{Event: evs[e].base, ev: e, batch: b.id, pos: j}
+						b.copies = append(b.copies, pc)
+						list = append(list, pc)
+					}
+					inflight++
+				})
+				if skip {
 					return
 				}
-				var list dag.Events
-				for j, e := range b.events {
-					pc := &pcopy{Event: evs[e].base, ev: e, batch: b.id, pos: j}
-					b.copies = append(b.copies, pc)
-					list = append(list, pc)
-				}
-				inflight++
 				go func() {
 					t0 := now()
 					err := proc.Enqueue(b.peer, list, b.ordered, nil, func() {
-						if !stopping { // done also fires when the task is aborted by Stop: that is not "finished handling"
-							b.doneAt = now()
-						}
+						ml.do(func() {
+							if !stopping { // done also fires when the task is aborted by Stop: that is not "finished handling"
+								b.doneAt = now()
+							}
+						})
 					})
+					ml.mu.Lock()
+					defer ml.mu.Unlock()
 					inflight--
 					b.enqErr, b.returned = err, true
 					if err == nil {
@@ -373,10 +417,10 @@ func RunProcessor(c *sim.Ctx) {
 						acquired.Size += m.Size
 					}
 					if now()-t0 > 0 {
-						probes["enqueue_blocked_on_semaphore"]++
+						probes.inc("enqueue_blocked_on_semaphore")
 					}
 					if err == dagprocessor.ErrBusy {
-						probes["enqueue_err_busy"]++
+						probes.inc("enqueue_err_busy")
 						if took := now() - t0; !stopping && took < semTimeout && !(list.Metric().Num > capacity.Num || list.Metric().Size > capacity.Size) {
 							rec.violation("proc-semaphore", "proc-semaphore/busy-early", "Enqueue of batch %d returned ErrBusy after %v, the semaphore timeout is %v", b.id, took, semTimeout)
 						}
@@ -389,19 +433,26 @@ func RunProcessor(c *sim.Ctx) {
 		settle(12 * time.Second)
 		observe("after draining")
 		allDone := true
-		for _, b := range batches {
-			if !b.returned {
-				rec.violation("proc-hang", "proc-hang/enqueue", "Enqueue of batch %d has not returned %v after the last stimulus", b.id, 12*time.Second)
+		wasStopped := false
+		ml.do(func() {
+			for _, b := range batches {
+				if !b.returned {
+					rec.violation("proc-hang", "proc-hang/enqueue", "Enqueue of batch %d has not returned %v after the last stimulus", b.id, 12*time.Second)
+				}
+				if b.enqErr == nil && b.doneAt < 0 {
+					allDone = false
+				}
 			}
-			if b.enqErr == nil && b.doneAt < 0 {
-				allDone = false
-			}
-		}
-		if !stopped {
+			wasStopped = stopped
+		})
+		if !wasStopped {
 			doStop()
 		}
 		settle(time.Second)
 		simEnd = now()
+		semLeft := sem.Processing()
+		ml.mu.Lock()
+		defer ml.mu.Unlock()
 		// ---- release accounting ----
 		for _, b := range batches {
 			for j := range b.events {
@@ -436,19 +487,19 @@ func RunProcessor(c *sim.Ctx) {
 					last = b.touch[j]
 				}
 				if reordered {
-					probes["ordered_batch_with_reordering_checker"]++
+					probes.inc("ordered_batch_with_reordering_checker")
 				}
 			}
 		}
 		if allDone && stopMode == 0 {
-			if got := sem.Processing(); got.Num != 0 || got.Size != 0 {
+			if got := semLeft; got.Num != 0 || got.Size != 0 {
 				rec.violation("proc-semaphore", "proc-semaphore/not-zero", "every batch was handled and every event released, but the semaphore still holds %v", got)
 			}
-			probes["all_batches_done_and_balanced"]++
+			probes.inc("all_batches_done_and_balanced")
 		}
 		_ = procOrder
 	})
-	for k, v := range probes {
+	for k, v := range probes.snapshot() {
 		for i := 0; i < v; i++ {
 			c.Probe(k)
 		}
